@@ -17,7 +17,7 @@ from copsim.seams import RngRecorder
 PROPERTY = 'C09'
 LEVEL = 'exploration'
 TIERS = {
-    'quick': {'runs': 1400, 'wall': 70, 'batch': 8},
+    'quick': {'runs': 1100, 'wall': 70, 'batch': 8},
     'thorough': {'runs': 60000, 'wall': 840, 'batch': 8},
 }
 RULE = ('Each run = one Clayton/Frank/Gumbel model (theta assigned from tau on a grid or at '
@@ -62,6 +62,10 @@ def generate(rng, tier, idx):
         if fam != 'Clayton' and n == big and tier != 'thorough' and rng.random() < 0.5:
             n = 2000
         ops.append({'op': 'sample', 'n': n})
+    if rng.random() < 0.2:
+        # many tiny calls: whole-batch shortcuts in the inverse (all rows degenerate, ...) only
+        # trigger when a batch has one or two rows
+        ops.append({'op': 'burst', 'k': rng.choice([20, 40]), 'n': rng.choice([1, 1, 2])})
     if rng.random() < 0.3:
         # history: the same instance is re-parameterised in place (as the vine code does with
         # ``copula.theta = ...``) and sampled again
@@ -287,6 +291,14 @@ def execute(run):
             ctx.event('refit_refused', outcome_class(o))
             if model.theta is None or model.tau is None:
                 break
+        elif op['op'] == 'burst':
+            for _ in range(op['k']):
+                proto = _check_call(ctx, run, model, fam, op['n'], subject)
+                if proto in ('raised', 'badshape', 'badrange') or ctx.violations:
+                    break
+            ctx.nontrivial = True
+            ctx.probes['burst_of_tiny_calls'] += 1
+            ctx.event('burst', op['k'], op['n'], proto, state_digest())
         elif op['op'] == 'sample':
             n = op['n']
             proto = _check_call(ctx, run, model, fam, n, subject, op.get('may_refuse', False))
